@@ -30,10 +30,11 @@ BUILD_TARGETS = ["DfolsVerif.Driver.DykstraDrv"]
 def pre_build(ctx):
     import gen_kernels
     ctx.cov["translated_dykstra"] = gen_kernels.regenerate_dykstra(ctx)
+    gen_kernels.regenerate_trproj(ctx)      # also the table of every dykstra call of the package
 
 
 THEOREMS = [
-    "Dfols.C15.gen_dykstra_body", "Dfols.C15.gen_pball", "Dfols.C15.gen_dykstra_skeleton",
+    "Dfols.C15.C15_src_sweep_budget", "Dfols.C15.gen_dykstra_body", "Dfols.C15.gen_pball", "Dfols.C15.gen_dykstra_skeleton",
     "Dfols.C15.C15_feasible",
     "Dfols.C15.C15_feasible_infDist",
     "Dfols.C15.C15_stopped_of_sweeps_lt",
@@ -378,11 +379,94 @@ def search(ctx):
                 ctx.fail(sig, what, {"case": case_json(c), "seed": [ctx.seed, 1515, i]})
     stats["failures_by_signature"] = seen_sig
     ctx.cov["search_dykstra"] = stats
+    callers_sweep_budget(ctx, dfols)
+
+
+def callers_sweep_budget(ctx, dfols):
+    """`at most max_iter sweeps` seen from the callers: the four convex sub-problem solvers are handed a Dykstra budget
+    (`d_max_iters`, from `params('dykstra.max_iters')`); on thin wedges, where Dykstra stops by its budget, no single projection
+    may use more sweeps than that.  Sweeps of one projection = calls of the first user projector between two consecutive
+    calls of `dykstra` (counted by wrapping the module attribute; the wrapper does not look at the arguments)."""
+    import dfols.trust_region as TR
+    from dfols.util import dykstra as real_dykstra
+    stats = {"solver_calls": 0, "projections": 0, "max_sweeps_seen": 0, "budgets": {}}
+    state = {"cur": 0, "worst": 0}
+
+    def wrapped(P, x0, *a, **k):
+        state["cur"] = 0
+        out = real_dykstra(P, x0, *a, **k)
+        state["worst"] = max(state["worst"], state["cur"])
+        stats["projections"] += 1
+        return out
+
+    saved = TR.dykstra
+    TR.dykstra = wrapped
+    try:
+        for i in range(ctx.scale(12, 60)):
+            rng = np.random.default_rng([ctx.seed, 1516, i])
+            ang = float(rng.choice([0.01, 0.02, 0.05]))
+            n1 = np.array([-np.sin(ang), np.cos(ang)])
+            n2 = np.array([-np.sin(ang), -np.cos(ang)])
+
+            def half(nrm):
+                def pr(x, nrm=nrm):
+                    t = float(np.dot(nrm, x))
+                    return x - max(t, 0.0) * nrm
+                return pr
+            h1 = half(n1)
+
+            def first(x, h1=h1):
+                state["cur"] += 1
+                return h1(x)
+            P = [first, half(n2)]
+            budget = int(rng.choice([3, 7, 20]))
+            xopt = np.array([float(rng.uniform(0.5, 2.0)), 0.0])
+            g = np.array([float(rng.uniform(0.5, 2.0)), float(rng.normal())])
+            H = np.eye(2) * float(rng.uniform(0.0, 1.0))
+            delta = float(rng.uniform(0.1, 1.0))
+            lam = 0.1
+            hfun = lambda x, lam=lam: lam * float(np.sum(np.abs(x)))
+            prox = lambda x, u, lam=lam: np.sign(x) * np.maximum(np.abs(x) - lam * u, 0.0)
+            for name, call in (("ctrsbox_pgd", lambda: TR.ctrsbox_pgd(xopt, g, H, P, delta, d_max_iters=budget, d_tol=1e-14)),
+                               ("ctrsbox_sfista", lambda: TR.ctrsbox_sfista(xopt, g, H, P, delta, hfun, lam * np.sqrt(2.0), prox, func_tol=1e-3,
+                                                                           max_iters=40, d_max_iters=budget, d_tol=1e-14)),
+                               ("ctrsbox_geometry", lambda: TR.ctrsbox_geometry(xopt, 0.3, g, P, delta, d_max_iters=budget, d_tol=1e-14))):
+                state["worst"] = 0
+                try:
+                    core.with_alarm(30, call)
+                except core.Alarm:
+                    continue
+                stats["solver_calls"] += 1
+                stats["max_sweeps_seen"] = max(stats["max_sweeps_seen"], state["worst"])
+                stats["budgets"][str(budget)] = stats["budgets"].get(str(budget), 0) + 1
+                ctx.seen(("c15callers", i, name, state["worst"] <= budget))
+                if state["worst"] > budget:
+                    ctx.fail("C15:caller-exceeds-sweep-budget:" + name,
+                             "%s was given dykstra budget %d but one projection used %d sweeps" % (name, budget, state["worst"]),
+                             {"callers": {"seed": [ctx.seed, 1516, i], "solver": name, "budget": budget}})
+    finally:
+        TR.dykstra = saved
+    ctx.cov["search_callers_sweep_budget"] = stats
 
 
 def replay(payload):
     dfols = core.import_dfols()
     rp = payload.get("replay", {})
+    if "callers" in rp:
+        class _C:
+            seed = rp["callers"]["seed"][0]
+            cov = {}
+            fails = []
+            def scale(self, a, b): return rp["callers"]["seed"][2] + 1
+            def seen(self, *a): pass
+            def fail(self, sig, what, rpl): self.fails.append((sig, what))
+        c = _C()
+        callers_sweep_budget(c, dfols)
+        for sgn, w in c.fails:
+            print("replay: still fails:", sgn, w)
+        if not c.fails:
+            print("replay: property holds on this input now")
+        return 1 if c.fails else 0
     if "case" not in rp:
         print("replay file names a broken obligation, nothing to execute:", payload.get("broken"))
         return 1
